@@ -478,6 +478,8 @@ class PoolGen:
             owner = self.used_by_host.get(k)
             if owner not in (None, h):
                 k = self.conn_for(h, True)
+                if self.used_by_host.get(k) not in (None, h):
+                    return          # one host identity per connection
             self.used_by_host[k] = h
             op = {"op": "ConnectDrop", "conn": k, "full": True, "kind": "geth", "payout": "", "uri": ""}
             self.emit(self.signed(op, h))
@@ -532,6 +534,8 @@ class PoolGen:
             owner = self.used_by_host.get(k)
             if owner not in (None, n):
                 k = self.conn_for(n, True)
+                if self.used_by_host.get(k) not in (None, n):
+                    return          # one host identity per connection
             self.used_by_host[k] = n
             self.emit(self.signed({"op": "Host", "conn": k, "kind": r.choice(["geth", "parity"]), "payout": r.choice(["", "a1"]), "uri": ""}, n))
             self.connected.add(n)
